@@ -328,6 +328,38 @@ func c06Guard(pat string, hasB bool, s string) string {
 	return ""
 }
 
+// the four methods that return match TEXT of a string input
+func c06IsTextDiff(d string) bool {
+	for _, m := range []string{"FindString:", "FindStringSubmatch:", "FindAllString(", "FindAllStringSubmatch("} {
+		if strings.HasPrefix(d, m) {
+			return true
+		}
+	}
+	return false
+}
+
+func c06Split(d []string) (other, text []string) {
+	for _, x := range d {
+		if c06IsTextDiff(x) {
+			text = append(text, x)
+		} else {
+			other = append(other, x)
+		}
+	}
+	return
+}
+
+// guard of the text-returning methods: known finding compat-string-reencoded applies to inputs with invalid UTF-8
+func c06TextGuard(guard, s string) string {
+	if guard != "" {
+		return guard
+	}
+	if !utf8.ValidString(s) {
+		return "compat-string-reencoded"
+	}
+	return ""
+}
+
 type c06Stats struct {
 	ascii, multi, invalid, guarded, units, named, lazy, flags, emptyAdj, unset, nomatch, modelGo, modelCompat int
 	abort                                                                                                     bool
@@ -363,8 +395,12 @@ func c06Unit(c *Ctx, st *c06Stats, p *c06Pair, hasB bool, s string, origin strin
 		c.Add(&Case{Desc: desc, Direct: "adapter panicked where the stdlib returned: " + err.Error(), Guard: guard})
 		return
 	}
-	c.Add(&Case{Desc: desc + " single-match methods", Direct: strings.Join(d, "; "), Guard: guard, Class: origin,
+	dOther, dText := c06Split(d)
+	c.Add(&Case{Desc: desc + " single-match methods", Direct: strings.Join(dOther, "; "), Guard: guard, Class: origin,
 		Nontrivial: p.go_.MatchString(s), Key: p.pat + "|" + s})
+	if len(dText) > 0 {
+		c.Add(&Case{Desc: desc + " single-match methods returning text", Direct: strings.Join(dText, "; "), Guard: c06TextGuard(guard, s), Class: "text-diff"})
+	}
 	if !p.go_.MatchString(s) {
 		st.nomatch++
 	}
@@ -474,7 +510,11 @@ func c06Unit(c *Ctx, st *c06Stats, p *c06Pair, hasB bool, s string, origin strin
 			c.Add(&Case{Desc: cdesc, Direct: "adapter panicked where the stdlib returned: " + err.Error(), Guard: guard})
 			return
 		}
-		cs := &Case{Desc: cdesc + " FindAll* methods", Direct: strings.Join(o.d, "; "), Guard: guard, Class: fmt.Sprintf("n=%d", n),
+		dOther, dText := c06Split(o.d)
+		if len(dText) > 0 {
+			c.Add(&Case{Desc: cdesc + " FindAll* methods returning text", Direct: strings.Join(dText, "; "), Guard: c06TextGuard(guard, s), Class: "text-diff"})
+		}
+		cs := &Case{Desc: cdesc + " FindAll* methods", Direct: strings.Join(dOther, "; "), Guard: guard, Class: fmt.Sprintf("n=%d", n),
 			Nontrivial: len(o.sub) >= 2, Key: fmt.Sprintf("%s|%s|%d", p.pat, s, n)}
 		if goOK {
 			cs.ModelLeg = 601
